@@ -1,4 +1,4 @@
-// C10: distribution parameters outside their range are a meaningless request: the process stops with a diagnostic instead of
+// C10 / C07 / C18: distribution parameters outside their range are a meaningless request: the process stops with a diagnostic instead of
 // returning a number; parameters inside the range return normally.
 #include "harness.hpp"
 #include "libphysica/Statistics.hpp"
